@@ -9,6 +9,7 @@ import (
 	"fmt"
 	"math/rand/v2"
 	"os"
+	"strings"
 	"syscall"
 )
 
@@ -58,6 +59,18 @@ func vfStartSession(r *vfRun, ops []vfOp) *vfSession {
 		maxTx = uint32(sc.cfg("maxtx", 0))
 	}
 	if kind == 0 {
+		// The os-backed server serves the real file system: no request of a generated (or shrunk - the shrinker may
+		// turn a request-server scenario with absolute virtual paths into an os-server one) program may name a
+		// path outside the run's private tree.
+		safe := make([]vfOp, len(ops))
+		copy(safe, ops)
+		for i := range safe {
+			safe[i].P = vfSafeRel(safe[i].P)
+			if safe[i].K != "symlink" {
+				safe[i].P2 = vfSafeRel(safe[i].P2)
+			}
+		}
+		ops = safe
 		s.root = vfNewTree()
 		os.Mkdir(s.root+"/d", 0o755)
 		for _, f := range vfInitFiles {
@@ -274,4 +287,17 @@ func vfValidSessionProgram(sc *vfScenario) bool {
 		}
 	}
 	return true
+}
+
+// vfSafeRel makes a generated path relative (to the server's working directory) unless it already lies
+// in the private tmpfs area.
+func vfSafeRel(p string) string {
+	if len(p) > 0 && p[0] == '/' && !strings.HasPrefix(p, "/dev/shm/vf/") {
+		q := strings.TrimLeft(p, "/")
+		if q == "" {
+			return "."
+		}
+		return q
+	}
+	return p
 }
